@@ -80,4 +80,68 @@ theorem prune_idempotent (r : PRepo) (hok : r.OK) (refs : List Nat) (r' : PRepo)
     have : c.id ∈ found' := (hf' c.id).2 (C12Aux.fromRefs_surviving hf hcf)
     simpa using this
 
+/-! ### refs whose commit is not stored -/
+
+/-- the walk starts from the same queue whether or not the refs to absent commits are there -/
+theorem insertRefs_filter_stored (g : Graph) : ∀ (refs : List Nat) (q : Q),
+    insertRefs g q refs = insertRefs g q (refs.filter (fun x => (g.get? x).isSome)) := by
+  intro refs
+  induction refs with
+  | nil => intro q; rfl
+  | cons p rs ih =>
+    intro q
+    cases hp : g.get? p with
+    | none =>
+      rw [C12Aux.insertRefs_missing rs hp, ih q]
+      simp [List.filter, hp]
+    | some c =>
+      have : (p :: rs).filter (fun x => (g.get? x).isSome) = p :: rs.filter (fun x => (g.get? x).isSome) := by
+        simp [List.filter, hp]
+      rw [this]
+      simp only [insertRefs]
+      split <;> exact ih _
+
+/-- a ref whose commit is not stored roots nothing: prune does exactly what it does without it -/
+theorem prune_ignores_dangling_refs (chk : Bool) (r : PRepo) (refs : List Nat) :
+    prune chk r refs = prune chk r (refs.filter (fun x => (r.commits.get? x).isSome)) := by
+  unfold prune
+  rw [← insertRefs_filter_stored]
+
+/-! ### one live table at a time -/
+
+theorem ite_nil_true {c : Bool} {s : String} (h : (if c = true then ([] : List String) else [s]) = []) : c = true := by
+  cases c
+  · simp at h
+  · rfl
+
+/-- the table of a reachable commit survives with every block and every block index of its own
+    that was stored, whichever other live tables list the same blocks -/
+theorem live_table_kept_whole (r : PRepo) (hok : r.OK) (refs : List Nat) (r' : PRepo)
+    (h : prune true r refs = .ok r')
+    (t : PTable) (ht : t ∈ r.tables) (c : Commit) (hc : c ∈ r.commits)
+    (hreach : (reachableCommits r refs).contains c.id = true) (hct : c.table = t.id) :
+    t ∈ r'.tables ∧ (∀ b ∈ t.blocks, b ∈ r.blocks → b ∈ r'.blocks) ∧ (∀ i ∈ t.idxs, i ∈ r.idxs → i ∈ r'.idxs) := by
+  have hv := prune_meets_spec r hok refs r' h
+  unfold pruneVerdict at hv
+  simp only [List.append_eq_nil_iff] at hv
+  obtain ⟨⟨⟨⟨⟨⟨_, h2⟩, _⟩, h4⟩, _⟩, _⟩, _⟩ := hv
+  have h2 := ite_nil_true h2
+  have h4 := ite_nil_true h4
+  have hlive : t ∈ (r.tables.filter (fun t => (r.commits.filter (fun c => (reachableCommits r refs).contains c.id)).any (fun c => c.table == t.id))) := by
+    rw [List.mem_filter]
+    refine ⟨ht, ?_⟩
+    rw [List.any_eq_true]
+    exact ⟨c, List.mem_filter.mpr ⟨hc, hreach⟩, by simp [hct]⟩
+  rw [Bool.and_eq_true, List.all_eq_true, List.all_eq_true] at h4
+  rw [List.all_eq_true] at h2
+  refine ⟨?_, ?_, ?_⟩
+  · have := h2 t hlive
+    simpa using this
+  · intro b hb hbr
+    have := h4.1 b (List.mem_filter.mpr ⟨List.mem_flatMap.mpr ⟨t, hlive, hb⟩, by simpa using hbr⟩)
+    simpa using this
+  · intro i hi hir
+    have := h4.2 i (List.mem_filter.mpr ⟨List.mem_flatMap.mpr ⟨t, hlive, hi⟩, by simpa using hir⟩)
+    simpa using this
+
 end Wrgl
